@@ -136,6 +136,12 @@ def _paths(ctx):
             for s in rng.sample(stems, 2) + ["x"]:
                 paths.append(("lookalike-ext", s + "." + v))
                 paths.append(("lookalike-ext", s + "." + v.upper()))
+    # URL-like and plain paths whose known extension is followed by a query / fragment / parameter: the trailing
+    # extension of the path STRING decides ('plan.docx?web=1' ends in 'docx?web=1'), whatever a URL parser would say
+    for e in known:
+        for pre in ("https://contoso.sharepoint.com/sites/x/Shared%20Documents/Plan", "file:///srv/share/Deck", "dir/plain", "http://h/a.b/c"):
+            for deco in rng.sample(["?web=1", "#slide=3", "?download=1&f=.pdf", ";v=2", "?", "#", "?x=.txt", "#a.docx"], 3):
+                paths.append(("url-decorated", pre + "." + rng.choice(_case_variants(rng, e)) + deco))
     for s in stems:
         paths.append(("no-ext", s))
     return paths
@@ -491,7 +497,8 @@ def search(ctx, broken):
     vs = _documented_violations(ctx)
     if vs:
         return vs
-    allp = [p for g, p in _paths(ctx) if g == "lookalike-ext"] + [p for g, p in _paths(ctx) if g != "lookalike-ext"]
+    allp = sorted(_paths(ctx), key=lambda gp: 0 if gp[0] in ("lookalike-ext", "url-decorated") else 1)
+    allp = [p for _, p in allp]
     for i in range(0, min(len(allp), 4000), 40):
         vs = _oracle_violations(ctx, allp[i:i + 40])
         if vs:
